@@ -102,6 +102,7 @@ def check(rep, tier):
                 "solidification stage (15 %); 2D cooling stage: heat content vs bottom + jacket heat (10 %); one-step binary64 correspondence of the 1D model as in C07; non-trivial = completed run")
     rep.trusted = ["Coq 8.16.1 kernel + vm_compute", "binary64 instance of model/Sn1D.v", "harness/c02.py enthalpy audits (finite-volume sums; thresholds 15 % (1D solidification) / 10 % (2D cooling))", "2D: audit + one-step correspondence with model/Sn2D.v"]
     recs = sr.catalogue(rng, tier, dims=("spatial_1D", "spatial_2D"), confs=None, n1=3 if tier == "quick" else 9, n2=0)
+    recs += sr.catalogue(rng, tier, dims=("spatial_1D",), confs=["VISF"], n1=1, late_vacuum=True)
     # 2D: shelf and jacket, default and non-default aspect ratios
     for conf, h, d in ([("jacket", 0.06, 0.06), ("jacket", 0.05, 0.12)] if tier == "quick" else
                        [("jacket", 0.06, 0.06), ("jacket", 0.05, 0.12), ("jacket", 0.08, 0.05), ("shelf", 0.06, 0.12), ("shelf", 0.05, 0.05)]):
